@@ -642,6 +642,33 @@ Proof.
   unfold disjoint_from in Hd. rewrite forallb_forall in Hd. specialize (Hd g Hin). lia.
 Qed.
 
+Lemma covered_cons : forall f ls j,
+  covered (f :: ls) j = ((f_off f <=? j)%nat && (j <? f_end f)%nat) || covered ls j.
+Proof. reflexivity. Qed.
+
+Lemma cover_step : forall f ls m cur, disjoint_from f ls = true -> (f_end f <= length m)%nat ->
+  length cur = length m ->
+  (forall j, (j < length m)%nat -> nth j cur 0 = if covered (f :: ls) j then 0 else nth j m 0) ->
+  forall j, (j < length m)%nat ->
+  nth j (splice cur (f_off f) (extent f m)) 0 = if covered ls j then 0 else nth j m 0.
+Proof.
+  intros f ls m cur Hdis Hend Hc Hcov j Hj.
+  assert (Hel : length (extent f m) = fsize (f_ty f)) by (unfold extent; apply sub_length; exact Hend).
+  specialize (Hcov j Hj). rewrite covered_cons in Hcov.
+  pose proof (covered_disjoint f ls j Hdis) as Hcd. unfold extent in *. unfold f_end in *.
+  revert Hel Hcov Hcd Hend. generalize (f_off f) as o. generalize (fsize (f_ty f)) as sz.
+  generalize (covered ls j) as cv. intros cv sz o Hel Hcov Hcd Hend. clear Hdis.
+  destruct (Nat.leb_spec o j) as [H1|H1]; [destruct (Nat.ltb_spec j (o + sz)) as [H2|H2]|].
+  - destruct cv.
+    + exfalso. apply Hcd; [reflexivity|lia].
+    + rewrite splice_nth_inside by (rewrite Hel; lia).
+      rewrite sub_nth; [f_equal; lia|exact Hend|lia].
+  - rewrite splice_nth_outside; [|rewrite Hel, Hc; exact Hend|right; rewrite Hel; exact H2].
+    rewrite Hcov. replace ((o <=? j)%nat && (j <? o + sz)%nat) with false by lia. reflexivity.
+  - rewrite splice_nth_outside; [|rewrite Hel, Hc; exact Hend|left; exact H1].
+    rewrite Hcov. replace ((o <=? j)%nat && (j <? o + sz)%nat) with false by lia. reflexivity.
+Qed.
+
 Lemma go_ok : forall m ls cur,
   layout_ok (length m) ls = true -> all_bytes m = true ->
   forallb (fun f => leaf_inv (f_ty f) (extent f m)) ls = true ->
@@ -659,27 +686,19 @@ Proof.
     apply andb_true_iff in Hlay as [Hlay Hlay']. apply andb_true_iff in Hlay as [Hlay Hdis].
     apply andb_true_iff in Hlay as [Hty Hbnd]. apply andb_true_iff in Hinv as [Hinv Hinv'].
     unfold strings_clean in Hcl. cbn [forallb] in Hcl. apply andb_true_iff in Hcl as [Hcl Hcl'].
-    unfold in_bounds in Hbnd. assert (Hend : (f_end f <= length m)%nat) by lia.
+    unfold in_bounds in Hbnd. assert (Hend : (f_end f <= length m)%nat) by (now apply Nat.leb_le).
     assert (Hfz : forall j, (f_off f <= j < f_end f)%nat -> nth j cur 0 = 0).
-    { intros j Hj. rewrite Hcov by lia. unfold covered. cbn [existsb].
-      replace ((f_off f <=? j)%nat && (j <? f_end f)%nat) with true by lia. reflexivity. }
+    { intros j [Hj1 Hj2]. rewrite Hcov by (eapply Nat.lt_le_trans; eassumption). rewrite covered_cons.
+      apply Nat.leb_le in Hj1. apply Nat.ltb_lt in Hj2. now rewrite Hj1, Hj2. }
     assert (Hcl1 : match f_ty f with TString _ => string_clean (extent f m) = true | _ => True end).
     { destruct (f_ty f); auto. }
     destruct (leaf_ok f m cur Hty Hend Hc Hb Hinv Hcl1 Hfz) as (v & Hget & Hset & Hjset).
-    assert (Hel : length (extent f m) = fsize (f_ty f)) by (unfold extent; apply sub_length; unfold f_end in Hend; lia).
+    assert (Hel : length (extent f m) = fsize (f_ty f)) by (unfold extent; apply sub_length; exact Hend).
     set (cur' := splice cur (f_off f) (extent f m)) in *.
     assert (Hc' : length cur' = length m).
-    { unfold cur'. rewrite splice_length; [exact Hc|]. unfold f_end in Hend. lia. }
+    { unfold cur'. rewrite splice_length; [exact Hc|]. rewrite Hel, Hc. exact Hend. }
     assert (Hcov' : forall j, (j < length m)%nat -> nth j cur' 0 = if covered ls j then 0 else nth j m 0).
-    { intros j Hj. unfold f_end in *.
-      destruct (Nat.leb_spec (f_off f) j) as [H1|H1]; [destruct (Nat.ltb_spec j (f_off f + fsize (f_ty f))) as [H2|H2]|].
-      - destruct (covered ls j) eqn:Ecv.
-        + exfalso. apply (covered_disjoint f ls j Hdis Ecv). unfold f_end. lia.
-        + unfold cur'. rewrite splice_nth_inside by lia. unfold extent. rewrite sub_nth by lia. f_equal. lia.
-      - unfold cur'. rewrite splice_nth_outside by lia. rewrite Hcov by lia. unfold covered. cbn [existsb].
-        unfold f_end. replace ((f_off f <=? j)%nat && (j <? f_off f + fsize (f_ty f))%nat) with false by lia. reflexivity.
-      - unfold cur'. rewrite splice_nth_outside by lia. rewrite Hcov by lia. unfold covered. cbn [existsb].
-        unfold f_end. replace ((f_off f <=? j)%nat && (j <? f_off f + fsize (f_ty f))%nat) with false by lia. reflexivity. }
+    { unfold cur'. now apply cover_step. }
     destruct (IH cur' Hlay' Hb Hinv' Hcl' Hc' Hcov') as (vs & Hto & Hgo & Hjgo).
     exists (v :: vs). split; [cbn [to_dict]; now rewrite Hget, Hto|]. split.
     + cbn [from_dict_go]. now rewrite Hset.
